@@ -148,7 +148,6 @@ func (p *Proxy) listen() {
 	}
 	p.listener.Close()
 	p.state.Set(stateClosed)
-	p.parent = nil
 	close(p.ch)
 }
 func (p *Proxy) clientLock() {
